@@ -28,6 +28,7 @@ func C15(c *Ctx) {
 	r.Rule("C15.D2.compare", "verification returns true only after every byte of the received authenticator was compared equal with the digest", 1)
 	r.Rule("C15.D3", "the datagram handed to verification is buf[:length] with 20 <= length <= bytes received, and the authenticator is buf[4:20] of the same buffer", 3)
 	r.Rule("C15.D4", "response: code/identifier from the request chain, authenticator = MD5(packet[:4] | request authenticator | packet[20:] | secret) copied into packet[4:20], sent to the request's source address", 6)
+	r.Rule("C15.D6", "no slice of the per-loop receive buffer (request authenticator, attribute bytes) is handed to a goroutine, captured by a closure, stored in the heap or sent on a channel: the response must be computed from the request that is being answered, not from a later datagram", 1)
 	r.Rule("C15.D5", "attributes handed to the handlers are parsed from buf[20:length] of the verified datagram", 1)
 
 	const pkg = "pkg/radius"
@@ -273,6 +274,12 @@ func C15(c *Ctx) {
 		if n == 0 {
 			r.Check("C15.D5", load.ShortFunc(loop), "parseAttributes(buf[20:length])", c.P.Pos(loop.Pos()), false, "no parseAttributes call in the receive loop")
 		}
+	}
+
+	// ---- D6: slices of the reused receive buffer must not outlive the loop iteration
+	if buf != nil {
+		n := bufferEscapes(c, loop, buf, "C15.D6")
+		r.Count("buffer_alias_sites", n)
 	}
 
 	// ---- D4: response construction in sendResponse and the parameter chain
@@ -739,4 +746,112 @@ func successBranch(b, join *ssa.BasicBlock) int {
 		break
 	}
 	return -1
+}
+
+// bufferEscapes checks that no value aliasing buf (slices of it, and parameters they are passed to, through
+// static module calls) reaches a go statement, a closure binding, a heap store or a channel send.
+// One obligation per function that handles an alias.  Returns the number of alias uses inspected.
+func bufferEscapes(c *Ctx, start *ssa.Function, buf ssa.Value, rule string) int {
+	type job struct {
+		f       *ssa.Function
+		tainted map[ssa.Value]bool
+	}
+	seenFn := map[string]bool{}
+	total := 0
+	var run func(j job, depth int)
+	run = func(j job, depth int) {
+		if depth > 6 {
+			return
+		}
+		f := j.f
+		// propagate within f: slices/changetypes/phis of tainted values
+		for changed := true; changed; {
+			changed = false
+			flow.Instrs(f, func(in ssa.Instruction) {
+				v, ok := in.(ssa.Value)
+				if !ok || j.tainted[v] {
+					return
+				}
+				switch x := in.(type) {
+				case *ssa.Slice:
+					if j.tainted[x.X] {
+						j.tainted[v], changed = true, true
+					}
+				case *ssa.ChangeType:
+					if j.tainted[x.X] {
+						j.tainted[v], changed = true, true
+					}
+				case *ssa.Phi:
+					for _, e := range x.Edges {
+						if j.tainted[e] {
+							j.tainted[v], changed = true, true
+						}
+					}
+				}
+			})
+		}
+		var bad []string
+		uses := 0
+		flow.Instrs(f, func(in ssa.Instruction) {
+			switch x := in.(type) {
+			case *ssa.Go:
+				for _, a := range x.Call.Args {
+					if j.tainted[a] {
+						uses++
+						bad = append(bad, "passed to a go statement at "+c.P.Pos(instrPos(in)))
+					}
+				}
+			case *ssa.MakeClosure:
+				for _, b := range x.Bindings {
+					if j.tainted[b] {
+						uses++
+						bad = append(bad, "captured by a closure at "+c.P.Pos(instrPos(in)))
+					}
+				}
+			case *ssa.Store:
+				if j.tainted[x.Val] {
+					uses++
+					if _, local := x.Addr.(*ssa.Alloc); !local {
+						bad = append(bad, "stored to the heap at "+c.P.Pos(instrPos(in)))
+					}
+				}
+			case *ssa.Send:
+				if j.tainted[x.X] {
+					uses++
+					bad = append(bad, "sent on a channel at "+c.P.Pos(instrPos(in)))
+				}
+			case *ssa.MapUpdate:
+				if j.tainted[x.Value] {
+					uses++
+					bad = append(bad, "stored in a map at "+c.P.Pos(instrPos(in)))
+				}
+			case *ssa.Call:
+				callee := x.Call.StaticCallee()
+				for i, a := range x.Call.Args {
+					if !j.tainted[a] {
+						continue
+					}
+					uses++
+					if callee != nil && load.InModule(callee) && len(callee.Blocks) > 0 && i < len(callee.Params) {
+						key := fmt.Sprintf("%s#%d", callee, i)
+						if !seenFn[key] {
+							seenFn[key] = true
+							run(job{callee, map[ssa.Value]bool{callee.Params[i]: true}}, depth+1)
+						}
+					}
+				}
+			}
+		})
+		total += uses
+		c.R.Check(rule, load.ShortFunc(f), "receive-buffer aliases stay within the iteration", c.P.Pos(f.Pos()), len(bad) == 0, "a slice of the reused receive buffer is "+strings.Join(bad, "; "))
+	}
+	// initial taint: every slice of buf in start
+	t := map[ssa.Value]bool{}
+	flow.Instrs(start, func(in ssa.Instruction) {
+		if sl, ok := in.(*ssa.Slice); ok && sameSliceBase(sl.X, buf) {
+			t[sl] = true
+		}
+	})
+	run(job{start, t}, 0)
+	return total
 }
